@@ -23,12 +23,12 @@ CHECKS = {
    "5/C04"),
  "C05": ("exploration",
    "runtime monitor: domain-type / admin-IP oracle over all five signing endpoints at service and handler boundaries",
-   "Thousands of requests covering endpoint x domain-type class (incl. look-alikes and lengths != 32 over the wire) x admin-IP list x source address class x batch position; a wire slice drives the real daemon with server.rules.admin-ips set (two lists: without and with the daemon's own listening address) while the client binds different loopback source addresses (real SourceIP interceptor); multisign batches repeat the same data under several domains; 64-entry multisign batches alternate harmless and restricted domains over many workers; the monitor asserts that generic/multi never return a signature under attester/proposer types (nor one that verifies under them or under the restricted domain another entry of the request carried), exits only from listed addresses, and that the protected endpoints refuse foreign types without touching stored state.",
+   "Thousands of requests covering endpoint x domain-type class (incl. look-alikes and lengths != 32 over the wire) x admin-IP list x source address class x batch position; a wire slice drives the real daemon with server.rules.admin-ips set (two lists: without and with the daemon's own listening address) while the client binds different loopback source addresses (real SourceIP interceptor); multisign batches repeat the same data under several domains; 64-entry multisign batches alternate harmless and restricted domains over many workers; generic requests with data/domain lengths other than 32/32 are built so that their concatenation reads as (root, restricted domain); the monitor asserts that generic/multi never return a signature under attester/proposer types (nor one that verifies under them or under the restricted domain another entry of the request carried), exits only from listed addresses, and that the protected endpoints refuse foreign types without touching stored state.",
    "Trusted: harness signing-root code; the IP in the credentials stands in for the SourceIP interceptor at the in-process boundary.",
    "5/C05"),
  "C08": ("exploration",
    "runtime monitor: independent BLS verification of every returned signature over harness-computed signing roots, across batch sizes x GOMAXPROCS; race detector on batch paths",
-   "Every signature returned for well-formed random requests (single and batches of 24 sizes from 1 to 511, GOMAXPROCS 1..61, service and handler boundary, by name/key/over-long key) is verified with herumi directly under the addressed account's key over a signing root computed by the harness's own SSZ code, and must not verify under a neighbouring account of the batch; response lengths must equal request lengths; a slice on real wallets behind the real fetcher uses account names that contain the path separator next to accounts named after their prefixes; multisign batches repeat data across entries under different domains; batches also carry marker entries (including entries that cannot be hashed) (attestations no rule can approve) whose positions must keep their own negative verdict. Batch paths also run under the race detector.",
+   "Every signature returned for well-formed random requests (single and batches of 24 sizes from 1 to 511, GOMAXPROCS 1..61, service and handler boundary, by name/key/over-long key) is verified with herumi directly under the addressed account's key over a signing root computed by the harness's own SSZ code, and must not verify under a neighbouring account of the batch; response lengths must equal request lengths; generic roots are also handed over as sub-slices of one buffer; a slice on real wallets behind the real fetcher uses account names that contain the path separator next to accounts named after their prefixes; multisign batches repeat data across entries under different domains; batches also carry marker entries (including entries that cannot be hashed) (attestations no rule can approve) whose positions must keep their own negative verdict. Batch paths also run under the race detector.",
    "Trusted: harness SSZ code, herumi VerifyByte.",
    "5/C08"),
  "C09": ("exploration",
@@ -43,7 +43,7 @@ CHECKS = {
    "5/C03"),
  "C06": ("fault_enumeration",
    "fault injection at every dependency seam (interposers + verifhook + undecodable records + OS-level write failure + closed store) with a per-position signature-iff-SUCCEEDED oracle",
-   "Every single fault of 23 kinds is injected for each of the five request kinds, batch sizes {1,2,5,17} and every position, at service and handler boundary; then seeded multi-fault sequences, a handler-only matrix over a stub signer, a closed store, a store closed under load (child; signatures that left it are re-verified against the reopened store), a value log whose descriptor is made unwritable, one request parked between its read and its write while the store closes over a populated memtable (the reopened store must cover any signature that left), and arguments that cannot be decided handed to the real signer service and ruler (absent credentials, data, checkpoints, identifiers; unknown actions; data of the wrong type). The oracle: signature iff SUCCEEDED at every position, no signature where a fault fired, and every signature returned beside a faulted entry verifies for its own entry. A fault whose injector never fired fails the run as inconclusive.",
+   "Every single fault of 23 kinds is injected for each of the five request kinds, batch sizes {1,2,5,17} and every position, at service and handler boundary; then seeded multi-fault sequences, a handler-only matrix over a stub signer, a closed store, a store closed under load (child; signatures that left it are re-verified against the reopened store), a value log whose descriptor is made unwritable, one request parked between its read and its write while the store closes over a populated memtable (the reopened store must cover any signature that left), and arguments that cannot be decided handed to the real signer service and ruler (absent credentials, data, checkpoints, identifiers; unknown actions; data of the wrong type). The oracle: signature iff SUCCEEDED at every position, no signature where a fault fired, every signature returned beside a faulted entry verifies for its own entry, a failed batch write fails every entry, and an entry that was not signed never lowers its key's records (half of the cases start from keys with history; a panic in the serving goroutine is answered as the server answers it). A fault whose injector never fired fails the run as inconclusive.",
    "Faults are those producible through exported interfaces, the storage hook and the OS; values outside the four rule results are not injected.",
    "5/C06"),
  "C07": ("exploration",
@@ -68,7 +68,7 @@ CHECKS = {
    "5/C15"),
  "C12": ("exploration",
    "runtime monitor: DKG consistency oracle over real multi-instance generations (all (n,t), id sets, initiators, commit arrival orders, tampered replies, retry after partial commit)",
-   "Real key generations on in-process clusters of real instances (real wallets, receiver handlers, process services; a routing sender replaces the transport) for every n in 2..7 and every t in 0..n+1; after each success the accounts are read back from every participant's store and checked (composite = returned key, same vector of t entries, threshold, participants, share consistent, and the share as stored opens with the generation's passphrase - every second generation is requested without one - and signs as the account's key), every participant signs and lists without restart, all t-subsets recover and (t-1)-subsets do not; out-of-range t must be refused and create nothing; tampered commit replies and a retry after a partially committed attempt must never yield an inconsistent success. A wire variant runs generations on three real daemons (127.0.0.1-3, certificates generated at run time) through AccountManager.Generate.",
+   "Real key generations on in-process clusters of real instances (real wallets, receiver handlers, process services; a routing sender replaces the transport) for every n in 2..7 and every t in 0..n+1; after each success the accounts are read back from every participant's store and checked (composite = returned key, same vector of t entries, threshold, participants, share consistent, and the share as stored opens with the generation's passphrase - every second generation is requested without one - and signs as the account's key), every participant signs and lists without restart, all t-subsets recover and (t-1)-subsets do not; out-of-range t must be refused and create nothing; tampered commit replies and a retry after a partially committed attempt must never yield an inconsistent success; generations of different accounts of one wallet also run concurrently and each reported success must be complete on every participant. A wire variant runs generations on three real daemons (127.0.0.1-3, certificates generated at run time) through AccountManager.Generate.",
    "herumi polynomial evaluation / recovery used by the oracle; transport replaced in-process.",
    "5/C12"),
  "C13": ("fault_enumeration",
@@ -78,7 +78,7 @@ CHECKS = {
    "5/C13"),
  "C14": ("exploration",
    "runtime monitor: valid-partial-signature counting over exhaustive / sampled routings of conflicting duty pairs across real instances of a distributed account",
-   "For every (n,t) that generation accepts on clusters of 2..4 instances (each with its own slashing database), four kinds of conflicting duty pairs are routed to the instances in every combination of {none, D1, D2, both orders, concurrently, second duty hidden in a two-entry batch, first duty inside a batch, a stale refusable attestation in between, second duty by over-long key}; genesis pairs (two attestations 0->0, two blocks at slot 0) come first on each fresh account; partial signatures are verified under the share keys; both duties must never reach t, and a duty that does must recover to a signature valid under the composite key.",
+   "For every (n,t) that generation accepts on clusters of 2..4 instances (each with its own slashing database), four kinds of conflicting duty pairs are routed to the instances in every combination of {none, D1, D2, both orders, concurrently, second duty hidden in a two-entry batch, first duty inside a batch (also with a refused last entry), a stale refusable attestation in between, second duty by over-long key}; genesis pairs (two attestations 0->0, two blocks at slot 0) come first on each fresh account; partial signatures are verified under the share keys; both duties must never reach t, and a duty that does must recover to a signature valid under the composite key.",
    "All t for each n are attempted so that a weakened threshold bound would be exercised.",
    "5/C14"),
  "C16": ("exploration",
@@ -88,11 +88,11 @@ CHECKS = {
    "5/C16"),
  "C17": ("exploration",
    "runtime monitor: three-valued session model with an interval clock over seeded event sequences on real instances",
-   "Seeded sequences of prepare/execute/commit/abort/fabricated contributions/sleeps over two names on 3-instance clusters with a 1.5 s timeout; only the stated implications are asserted and only where the interval clock decides the session's state (unknown otherwise). A sliding-timeout scenario checks that messages during a generation do not extend it. An execute-in-flight scenario aborts and re-prepares a name while a contribution is delayed in transit: the new generation must not be committable.",
+   "Seeded sequences of prepare/execute/commit/abort/fabricated contributions/sleeps over two names on 3-instance clusters with a 1.5 s timeout; only the stated implications are asserted and only where the interval clock decides the session's state (unknown otherwise). A progress watchdog reports messages that never return. A sliding-timeout scenario checks that messages during a generation do not extend it. An execute-in-flight scenario aborts and re-prepares a name while a contribution is delayed in transit: the new generation must not be committable.",
    "Expiry is real-time in the code; assertions are skipped in the timing grey zone.",
    "5/C17"),
  "C18": ("exploration",
-   "differential monitor: real lister over a real fetcher vs reference permission model (soundness, completeness, key fidelity), before and after dynamic account creation (repeated creations in the same wallets)",
+   "differential monitor: real lister over a real fetcher vs reference permission model (soundness, completeness, key fidelity), before and after dynamic account creation (repeated creations in the same wallets; concurrent listings from several clients, also under the race detector)",
    "150+ generated permission tables x 12 path lists (wallet-only, expressions, unknown, malformed, duplicates) at service and handler boundary on a real fetcher; the same after accounts are created through Dirk (single and 2-of-2 distributed generation).",
    "Completeness uses the narrowest reading of 'matches'.",
    "5/C18"),
@@ -103,7 +103,7 @@ CHECKS = {
    "5/C19"),
  "C20": ("exploration",
    "crash monitor: structure-aware hostile inputs + byte mutations against the real handlers (child process, inputs logged first, 8 GiB address-space cap) and against the real daemon over the wire, with canaries",
-   "Tens of thousands of hostile requests for all 16 methods; a process death, an unanswered canary or an input unanswered for 45 s is a violation attributed to the last logged input; a concurrent phase mixes listing, account creation, signing and locking (in-process, over the wire and under the race detector). A panic in the goroutine serving a request in-process makes the input a candidate that is replayed against the real daemon, which decides; inputs of earlier findings are replayed in every run; text-shaped fields get malformed-Unicode generators.",
+   "Tens of thousands of hostile requests for all 16 methods; a process death, an unanswered canary or an input unanswered for 45 s is a violation attributed to the last logged input; a concurrent phase mixes listing, account creation, signing and locking (in-process, over the wire and under the race detector). A panic in the goroutine serving a request in-process makes the input a candidate that is replayed against the real daemon, which decides; inputs of earlier findings are replayed in every run; text-shaped fields get malformed-Unicode generators; distributed generations that really run (fresh, existing and store-time-refused names) are part of the stream.",
    "A crash means process death or a failed canary; an error reply is fine.",
    "5/C20"),
 }
